@@ -157,9 +157,11 @@ def train_val_split(ctx):
         ctx.oblige(f"C15/train_val_split/post/n_val_is_rounded_proportion#{i}", z3.And(to_real(nva) >= p * n - z3.RealVal("1/2"), to_real(nva) <= p * n + z3.RealVal("1/2")), hyp, props, fn=fnq, replay=rp)
         # partition: every original row j is in exactly one part (witness position from the inverse permutation)
         w = PINV(key, n, j)
-        in_tr = z3.And(w >= 0, w < ntr, tr[0].prov(w) == j)
-        in_va = z3.And(w - ntr >= 0, w - ntr < nva, va[0].prov(w - ntr) == j)
-        ctx.oblige(f"C15/train_val_split/post/every_row_in_a_part#{i}", z3.Or(in_tr, in_va), hyp + [j >= 0, j < n], props, fn=fnq, replay=rp, inst=inst)
+        # membership needs SOME position; candidates: the row's position in the shuffled array, offset by either part's length
+        # (which part comes first in the shuffled array is an implementation choice)
+        def member(part, cnt):
+            return z3.Or(*[z3.And(c_ >= 0, c_ < cnt, part[0].prov(c_) == j) for c_ in (w, w - ntr, w - nva)])
+        ctx.oblige(f"C15/train_val_split/post/every_row_in_a_part#{i}", z3.Or(member(tr, ntr), member(va, nva)), hyp + [j >= 0, j < n], props, fn=fnq, replay=rp, inst=inst)
         a, b = z3.Ints("a b")
         ctx.oblige(f"C15/train_val_split/post/parts_disjoint#{i}", tr[0].prov(a) != va[0].prov(b), hyp + [a >= 0, a < ntr, b >= 0, b < nva], props, fn=fnq, replay=rp, inst=inst)
         ctx.oblige(f"C15/train_val_split/post/no_duplicates_within_train#{i}", tr[0].prov(a) != tr[0].prov(b), hyp + [a >= 0, a < ntr, b >= 0, b < ntr, a != b], props, fn=fnq, replay=rp, inst=inst)
